@@ -9,16 +9,31 @@ replays the same histories on the real code and diffs, after every step, which
 fingerprints changed, and at the end the bucket/slice layout (len, cap, sharing of
 backing arrays).
 
+Sharing between goroutines (§6 generic, §7 for `Heap.step`): the generic interleaving
+theorem is instantiated with the step function the driver runs — every goroutine's
+step is `Heap.step` on the shared heap followed by its own allocations — and its
+footprint hypothesis is discharged from `step_writes_only` (`Lemmas/d20Conc.lean`).
+The driver op `heap.conc` runs the same semantics against REAL goroutines
+(`harness/c20_dconc.go`).
+
 What is NOT proved here, and cannot be in this model: anything about the Go memory
-model or scheduler.  `interleaving_equiv_sequential` is a theorem about step
-semantics with footprints; that the footprint of each real API call is the model's
-(`wset`, "allocates, never writes what exists") is supported by the correspondence
-runs and by the `-race` worker of the thorough tier — evidence, not proof.
+model or scheduler; that goroutines allocate disjoint objects (the arenas of §7 — the
+one-heap variant `shared_heap_untouched` does without, but only for the shared part;
+that the two variants print the same is CHECKED by the driver on every `heap.conc`
+case, not proved); that the footprint of each real API call is the model's (`wset`,
+"allocates, never writes what exists") — supported by the correspondence runs and by
+the `-race` worker (short run in the quick tier, long in the thorough tier):
+evidence, not proof.
 -/
 import CtyModel.Lemmas.HeapInvF
 import CtyModel.Lemmas.HeapEscape
 import CtyModel.Lemmas.HeapPure
 import CtyModel.Lemmas.HeapInterleave
+import CtyModel.Lemmas.d20Conc
+import CtyModel.Lemmas.d20Strict
+import CtyModel.Lemmas.d20Pure
+import CtyModel.Lemmas.d20Marks
+import CtyModel.Lemmas.d20Fuel
 namespace CtyModel
 namespace C20
 open Heap
@@ -200,6 +215,22 @@ theorem pathSetList_counterexample :
     respectful (run {} pathSetListPre) (.caller (.setStep 5 0 "zz")) = false ∧
     goChanges pathSetListPre 3 (.caller (.setStep 5 0 "zz")) = true := by decide
 
+/-- `p := Path{}.GetAttr("a").GetAttr("b"); s := NewPathSet(); s.AddAllSteps(p);
+l := s.List(); q := l[0]` — `q` is the member `p[:1]`: `len 1, cap 2`, over `p`'s array -/
+def pathSetAddAllStepsPre : List HeapOp :=
+  [.caller .nilPath, .api (.pathGetAttr 0 "a"), .api (.pathGetAttr 1 "b"), .api .newPathSet,
+   .api (.psAddAllSteps 3 2 [1, 2]), .api (.psList 3 [0, 1]), .caller (.elemPath 4 0)]
+
+/-- **`AddAllSteps` files every prefix `path[:i]` as a slice over the caller's array**
+(the path is retained as by `Add`, documented) — so the members of one set SHARE a
+backing array, the shorter ones with spare capacity: `append(q, step)` on the listed
+member `a` writes no cell of `a` itself, yet turns the member `a.b` into `a.zz`. -/
+theorem pathSetAddAllSteps_counterexample :
+    respectfulRun {} pathSetAddAllStepsPre = true ∧
+    (run {} pathSetAddAllStepsPre).gos[5]! = .slice 1 0 1 2 ∧
+    respectful (run {} pathSetAddAllStepsPre) (.caller (.appendStep 5 "zz")) = false ∧
+    goChanges pathSetAddAllStepsPre 3 (.caller (.appendStep 5 "zz")) = true := by decide
+
 /-- Walk over `list(list(list(list("x","y"))))`, four callback invocations deep: the
 path of `[0][0][0][0]` is register 9 and has `len 4, cap 4`, sharing its array with
 its parent's `len 3, cap 4` slice -/
@@ -225,6 +256,83 @@ theorem walk_copied_path_stays :
     respectfulRun {} (walkPre ++ [.api (.pathCopy 9), .api (.psAdd 4 10 0), .api (.walkNext 0)]) = true ∧
     goChanges (walkPre ++ [.api (.pathCopy 9), .api (.psAdd 4 10 0)]) 4 (.api (.walkNext 0)) = false := by
   decide
+
+
+/-! ## 2b. Histories in which every call applies
+
+`run` skips a step the model does not apply, so the theorems above also speak of
+histories padded with no-ops.  The histories the correspondence harness replays on
+the real code are STRICT: every step applies on both sides (a step the model skips
+prints `!`, which never equals what the real call printed). -/
+
+/-- **Fingerprints are stable — strict histories.**  `pre`, then `post`, every single
+step of both applying (`runStrict … = some _`), the whole respecting the documented
+ownership rules: every value that exists after `pre` reports exactly the same deep
+content after `post`.  No skipped step carries the statement. -/
+theorem fingerprints_stable_strict (pre post : List HeapOp) (st1 st2 : St)
+    (h1 : runStrict {} pre = some st1) (h2 : runStrict st1 post = some st2)
+    (hd : docRespectfulRun {} (pre ++ post) = true)
+    (w : Word) (hw : w ∈ st1.vals) (f : Nat) : fp f st2.mem w = fp f st1.mem w := by
+  have e1 := runStrict_run pre {} st1 h1
+  have e2 : run {} (pre ++ post) = st2 :=
+    runStrict_run (pre ++ post) {} st2 (by rw [runStrict_append, h1]; exact h2)
+  have := fingerprints_stable pre post hd w (by rw [e1]; exact hw) f
+  rwa [e1, e2] at this
+
+/-- a history is strict exactly when the model applies each of its steps -/
+theorem strict_iff_all_applied (st : St) (ops : List HeapOp) :
+    (runStrict st ops).isSome = true ↔ applied st ops = ops.length :=
+  runStrict_isSome_iff ops st
+
+/-- **Calls on value registers of the right kind apply** — in every state a history
+from the empty state reaches (documented ownership rules respected): `AsBigFloat`,
+`Negate`, `Add` on number values; `Marks`, `Unmark`, `Mark`, `WithSameMarks` on any
+value.  The storage they read exists and has the right kind because every value is
+made of library-owned storage (`values_frozen`): for these entry points no history is
+carried by a skipped step.  (For the other entry points applicability also depends on
+oracle columns — hashes, orders — and is observed, not proved: a call the real code
+executes and the model skips prints `!` and is a correspondence mismatch.) -/
+theorem value_calls_apply (ops : List HeapOp) (hd : docRespectfulRun {} ops = true) :
+    (∀ v w t t' a b, (run {} ops).val v = some (t, .num a) → (run {} ops).val w = some (t', .num b) →
+      (step (run {} ops) (.api (.asBigFloat v))).isSome = true ∧
+      (step (run {} ops) (.api (.opNegate v))).isSome = true ∧
+      (step (run {} ops) (.api (.opAdd v w))).isSome = true) ∧
+    (∀ v w t p t' q mk, (run {} ops).val v = some (t, p) → (run {} ops).val w = some (t', q) →
+      (step (run {} ops) (.api (.marks v))).isSome = true ∧
+      (step (run {} ops) (.api (.unmark v))).isSome = true ∧
+      (step (run {} ops) (.api (.mark v mk))).isSome = true ∧
+      (step (run {} ops) (.api (.withSameMarks v w))).isSome = true) :=
+  have hi := (run_inv ops {} inv_empty hd).1
+  ⟨fun _ _ _ _ _ _ hv hw => number_calls_apply hi hv hw,
+   fun _ _ _ _ _ _ mk hv hw => mark_calls_apply hi mk hv hw⟩
+
+/-- the hypotheses are satisfiable by non-trivial histories: the witnesses of the
+`_counterexample`s below are strict up to the offending mutation -/
+example : (runStrict {} walkPre).isSome = true ∧ (runStrict {} tupleElementTypesPre).isSome = true ∧
+    (runStrict {} pathSetListPre).isSome = true ∧ docRespectfulRun {} walkPre = true := by decide
+
+/-! ## 2c. Fuel
+
+`fp`, `frozen` recurse on a fuel argument (`fp 0 = [.cut]`, `frozen 0 = true`).  The
+theorems above hold for EVERY fuel, and a fingerprint without `.cut` is final: -/
+
+/-- **A complete fingerprint is the fingerprint for every larger fuel** — so an
+equation between complete fingerprints is an equation between the deep contents, not
+an artefact of the fuel running out on both sides; and `Equivalent` of the set model
+(`equivW`, fuel `eqFuel = 12`) answers the same with any larger fuel on members whose
+fingerprints are complete.  (The driver prints fingerprints with fuel 24; a `#cut` in
+its output can never equal what the real code printed.) -/
+theorem fingerprint_fuel_irrelevant {f f' : Nat} (hle : f ≤ f') (m : Mem) (w : Word)
+    (h : Tok.cut ∉ fp f m w) :
+    fp f' m w = fp f m w ∧
+    ∀ y, eqFuel ≤ f → Tok.cut ∉ fp eqFuel m w → Tok.cut ∉ fp eqFuel m y →
+      equivWf f m w y = equivW m w y :=
+  ⟨fp_fuel_le hle m w h, fun y hf hw hy => equivW_fuel hf m w y hw hy⟩
+
+/-- every value and Go object of the deepest witness history (four nested lists, a
+walk four levels deep) has a complete fingerprint at fuel 8 -/
+example : ((run {} walkPre).vals ++ (run {} walkPre).gos).all
+    (fun w => !(fp 8 (run {} walkPre).mem w).contains .cut) = true := by decide
 
 /-! ## 3. Accessors do not let internals escape -/
 
@@ -411,6 +519,96 @@ theorem constructor_map_collision_counterexample :
   revert this
   decide
 
+
+open Purity Value in
+/-- the full statement for the `Equals` loop with member comparisons that may fail:
+every visiting order gives the same outcome -/
+def EqualsLoopPure : Prop :=
+  ∀ σ σ' : List (Res EqAcc), σ.Perm σ' → eqLoop σ false = eqLoop σ' false
+
+open Purity Value in
+/-- **`Equals` on objects/maps when a member comparison does not return.**  `σ`, `σ'`
+two visiting orders.  (1) The loop never invents a failure: it reports `False`, or a
+failure one of the member comparisons produced, or all comparisons returned (then
+`pure_equals_object`).  (2) Without a known-unequal member, all orders agree on
+whether the call returns at all. -/
+theorem pure_equals_outcome_partial (σ σ' : List (Res EqAcc)) (hp : σ.Perm σ') :
+    (eqLoop σ false = .ok .f ∨ ((eqLoop σ false).isOk = false ∧ eqLoop σ false ∈ σ) ∨
+      ∀ r ∈ σ, r.isOk = true) ∧
+    (Res.ok EqAcc.f ∉ σ → (eqLoop σ false).isOk = (eqLoop σ' false).isOk) :=
+  ⟨eqLoop_result σ false, fun hf => eqLoop_perm_class hp hf false⟩
+
+open Purity Value in
+/-- **…and the side condition is necessary**: a known-unequal member and a member
+whose comparison panics give `False` or the panic depending on the visiting order.
+NOT a finding: no member comparison of well-formed mark-free values panics (only a
+capsule type whose user-supplied `Equals` panics does; replayed on the real code by
+`harness/c20_d1.go`, tag `pure:equals-capsule-panic-order`, it is the caller's own
+panic that surfaces or not). -/
+theorem equals_loop_pure_counterexample : ¬ EqualsLoopPure := by
+  intro h
+  have := h [.ok .f, .panic "x"] [.panic "x", .ok .f] (List.Perm.swap _ _ _)
+  revert this
+  decide
+
+open Purity in
+/-- **`MapVal` infers its element type independently of Go's map order.**  `σ`, `σ'`:
+the types of the caller's entries in two visiting orders; `eq` is `Type.Equals`, an
+equivalence (C07).  Both orders panic ("inconsistent map element types"), or both
+answer a type, and the two types are `Equals` (they may be different Go objects). -/
+theorem pure_mapval_element_type {T : Type} [DecidableEq T] (dyn : T) (eq : T → T → Bool)
+    (hrefl : ∀ a, eq a a = true) (hsymm : ∀ a b, eq a b = true → eq b a = true)
+    (htrans : ∀ a b c, eq a b = true → eq b c = true → eq a c = true)
+    (σ σ' : List T) (hp : σ.Perm σ') :
+    match mapValTy dyn eq σ dyn, mapValTy dyn eq σ' dyn with
+    | some a, some b => eq a b = true
+    | none, none => True
+    | _, _ => False :=
+  mapValTy_perm dyn eq hrefl hsymm htrans hp
+
+open Purity in
+/-- non-trivial instances: three entries `string, dyn, string` in two orders give
+`string`; `string, number` panics in both orders; and the loop of the heap model
+(`elemType`: first non-dynamic type in key order) is this loop -/
+example : mapValTy "dyn" (· == ·) ["string", "dyn", "string"] "dyn" = some "string" ∧
+    mapValTy "dyn" (· == ·) ["dyn", "string", "string"] "dyn" = some "string" ∧
+    mapValTy "dyn" (· == ·) ["string", "number"] "dyn" = none ∧
+    mapValTy "dyn" (· == ·) ["number", "string"] "dyn" = none ∧
+    mapValTy tDyn (· == ·) [tString, tDyn, tString] tDyn = some (elemType [tString, tDyn, tString]) := by
+  decide
+
+/-! ## 5b. Mark sets are heap objects of their own -/
+
+/-- **`WithMarks` and `Mark` build a new mark set.**  The marker of the value they
+return points at a mark set the call itself allocated, library-owned, at a fresh
+address — never at the `ValueMarks` map the caller passed (or, when there is no mark
+at all, the call returns the receiver as it is). -/
+theorem withMarks_builds_new_mark_set {st st' : St} {v g : Nat}
+    (h : step st (.api (.withMarks v g)) = some st') :
+    ∃ t p, st.val v = some (t, p) ∧
+      (st'.vals = st.vals ++ [.pair t p] ∧ st'.mem = st.mem ∨
+       ∃ l, st'.vals = st.vals ++ [.pair t (.marked st.mem.length (unwrap p))] ∧
+         st'.mem = st.mem ++ [⟨.lib, .markset l⟩]) :=
+  withMarks_markset h
+
+/-- `m := cty.NewValueMarks("p"); v := cty.StringVal("a").WithMarks(m)` -/
+def withMarksPre : List HeapOp := [.api (.stringVal "a"), .caller (.newMarks ["p"])]
+
+/-- **Regression witness for the seeded fast path** (`seeded/C20-withmarks-fast-path-
+retains-caller-map`: unmarked receiver, one set → the caller's map goes into the
+marker).  With it, `m["q"] = struct{}{}` — a respectful caller action: the map is the
+caller's — changes the value; with the current code (`stepApi`) it does not, and the
+mutation stays respectful. -/
+theorem withMarks_fast_path_counterexample :
+    let st := run {} withMarksPre
+    (let bad := (withMarksFast st 0 0).getD st
+     respectful bad (.caller (.marksAdd 0 "q")) = true ∧
+     fp 8 (run bad [.caller (.marksAdd 0 "q")]).mem bad.vals[1]! ≠ fp 8 bad.mem bad.vals[1]!) ∧
+    (let good := run st [.api (.withMarks 0 0)]
+     respectful good (.caller (.marksAdd 0 "q")) = true ∧
+     fp 8 (run good [.caller (.marksAdd 0 "q")]).mem good.vals[1]! = fp 8 good.mem good.vals[1]!) := by
+  decide
+
 /-! ## 6. Sharing between goroutines -/
 
 open Interleave in
@@ -454,6 +652,196 @@ theorem interleaving_prefix {V R : Type} (prog : Nat → List (Act V R))
       (exec (start prog m0) sched).out i = (solo m0 done).2 := by
   obtain ⟨done, hpr, hout, _⟩ := (inv_exec hp sched (inv_start prog shared own m0)).thread i
   exact ⟨done, hpr, hout⟩
+
+/-! ## 7. Sharing between goroutines — the heap model the driver runs
+
+§6 is generic.  Here its hypothesis is DISCHARGED for `Heap.step`, the step function the
+correspondence harness diffs against go-cty (`Lemmas/d20Conc.lean`). -/
+
+open Conc in
+/-- **Every API entry point of the model but eight has an empty write set** — in every
+state, whatever its arguments: constructors, accessors, operation methods, `Copy`,
+`Values`, `Has`, `Length`, path helpers, `PathSet.List/Has`, the first callback
+invocation of `Walk`.  The eight: `NumberVal(*big.Float)` and `cty.Tuple([]Type)` (take
+ownership of the caller's object — documented), `ValueSet.Add/Remove`,
+`PathSet.Add/AddAllSteps/Remove` (mutating methods of helper sets, documented as not
+concurrency-safe) and the continuation of a running `Walk` (appends to that walk's
+own path buffer). -/
+theorem api_write_set_empty (c : Api) :
+    (readOnlyApi c = true ∧ ∀ st x, wset st (.api c) x = false) ∨
+    (∃ g, c = .numberVal g) ∨ (∃ g, c = .tupleType g) ∨ (∃ g v h, c = .vsAdd g v h) ∨
+    (∃ g v h, c = .vsRemove g v h) ∨ (∃ g p h, c = .psAdd g p h) ∨ (∃ g p h, c = .psRemove g p h) ∨
+    (∃ g p hs, c = .psAddAllSteps g p hs) ∨ (∃ w, c = .walkNext w) := by
+  cases hc : readOnlyApi c with
+  | true => exact .inl ⟨rfl, wset_readOnly hc⟩
+  | false =>
+    right
+    cases c <;> simp [readOnlyApi] at hc
+    all_goals simp
+
+open Conc in
+/-- **Read-only footprint.**  A call of any of those entry points performs NO write to
+any object that existed before it, shared or not, reachable or not: the heap it
+leaves is the heap it found plus what it allocated.  (No ownership hypothesis.) -/
+theorem api_read_only_footprint {c : Api} (hc : readOnlyApi c = true) {st st' : St}
+    (h : step st (.api c) = some st') :
+    st.mem <+: st'.mem ∧
+      ∀ f w, frozen f st.mem w = true → fp f st'.mem w = fp f st.mem w :=
+  ⟨readOnly_prefix hc h,
+   fun f w hw => fp_stable (step_preserves (respectful_readOnly hc st) h) f w hw⟩
+
+open Conc Interleave in
+/-- **Any interleaving of goroutines equals their sequential runs — for `Heap.step`.**
+`st0` is the state when the goroutines start: every value and Go object of it is
+shared.  Goroutine `i` runs the history `progs i` (API calls and caller actions), each
+step being the model's `step` on the shared heap followed by the goroutine's own
+allocations.  A step is admitted when it respects the ownership rules and its write
+set holds no object of the shared heap (`sharedSafe`, decidable; a goroutine may
+mutate Go data it made itself, `Add` to a `ValueSet` it made itself, `Walk`).
+Then for EVERY schedule that runs all goroutines to completion, every goroutine gets
+back, step for step, exactly the states (values, Go data, answers) of running alone
+from `st0` — hence the same as under any other schedule, the sequential ones
+included — and the shared state is untouched.
+
+This instantiates `interleaving_equiv_sequential`: the footprint hypothesis
+(`Partitioned`) is `Arena.partitioned`, whose frame half is `step_writes_only`.
+ASSUMED, not proved: goroutines allocate in disjoint arenas (Go's allocator gives
+different goroutines different objects); the Go memory model; and that each real
+call's footprint is the model's (correspondence runs, `-race` worker). -/
+theorem goroutines_equiv_sequential (st0 : St) (progs : Nat → List HeapOp) (sched : List Nat)
+    (hdone : ∀ i, (exec (start (Arena.prog progs) (Arena.cells0 st0)) sched).todo i = []) :
+    (∀ i, (exec (start (Arena.prog progs) (Arena.cells0 st0)) sched).out i =
+        soloTrace st0.mem.length st0 (progs i)) ∧
+    (exec (start (Arena.prog progs) (Arena.cells0 st0)) sched).mem 0 = st0 := by
+  obtain ⟨hout, _, hsh⟩ := interleaving_equiv_sequential (Arena.prog progs) (fun x => x = 0)
+    (fun i x => x = i + 1) (Arena.partitioned progs) (Arena.cells0 st0) sched hdone
+  refine ⟨fun i => ?_, by simpa [Arena.cells0] using hsh 0 rfl⟩
+  rw [hout i]
+  have := (Arena.solo_act i (progs i) (Arena.cells0 st0)).1
+  simpa [Arena.view_cells0, Arena.cells0, Arena.prog] using this
+
+open Conc Interleave in
+/-- **…for goroutines that only USE shared values** (read-only API calls, fresh Go
+data): no side condition is left — the results are those of the model's unguarded
+`step`, whatever the schedule. -/
+theorem goroutines_read_only (st0 : St) (progs : Nat → List HeapOp) (sched : List Nat)
+    (hro : ∀ i, (progs i).all readOnlyOp = true)
+    (hdone : ∀ i, (exec (start (Arena.prog progs) (Arena.cells0 st0)) sched).todo i = []) (i : Nat) :
+    (exec (start (Arena.prog progs) (Arena.cells0 st0)) sched).out i = stepTrace st0 (progs i) := by
+  rw [(goroutines_equiv_sequential st0 progs sched hdone).1 i, soloTrace_readOnly _ _ _ (hro i)]
+
+open Conc Interleave in
+/-- **…and two schedules never disagree**: what a goroutine gets back does not depend
+on the schedule. -/
+theorem goroutines_schedule_independent (st0 : St) (progs : Nat → List HeapOp) (s s' : List Nat)
+    (h : ∀ i, (exec (start (Arena.prog progs) (Arena.cells0 st0)) s).todo i = [])
+    (h' : ∀ i, (exec (start (Arena.prog progs) (Arena.cells0 st0)) s').todo i = []) (i : Nat) :
+    (exec (start (Arena.prog progs) (Arena.cells0 st0)) s).out i =
+      (exec (start (Arena.prog progs) (Arena.cells0 st0)) s').out i := by
+  rw [(goroutines_equiv_sequential st0 progs s h).1 i, (goroutines_equiv_sequential st0 progs s' h').1 i]
+
+open Conc Interleave in
+/-- …at every moment of every schedule (complete or not) each goroutine has got back a
+prefix of its sequential results. -/
+theorem goroutines_prefix (st0 : St) (progs : Nat → List HeapOp) (sched : List Nat) (i : Nat) :
+    ∃ done rest, progs i = done ++ rest ∧
+      (exec (start (Arena.prog progs) (Arena.cells0 st0)) sched).out i =
+        soloTrace st0.mem.length st0 done := by
+  obtain ⟨done, hpr, hout⟩ := interleaving_prefix (Arena.prog progs) (fun x => x = 0)
+    (fun i x => x = i + 1) (Arena.partitioned progs) (Arena.cells0 st0) sched i
+  simp only [Arena.prog] at hpr
+  obtain ⟨d, r, hd, hdd, _⟩ := List.map_eq_append_iff.mp hpr
+  refine ⟨d, r, hd, ?_⟩
+  rw [hout, ← hdd]
+  have := (Arena.solo_act i d (Arena.cells0 st0)).1
+  simpa [Arena.view_cells0, Arena.cells0] using this
+
+
+/-- a state to fork from: `v0 = 3`, `v3 = ["x","y"]`, `v4 = v3.Mark("secret")` -/
+def forkState : St :=
+  run {} [.api (.numberIntVal 3), .api (.stringVal "x"), .api (.stringVal "y"), .caller (.newSlice [1, 2] 0),
+    .api (.listVal 0), .api (.mark 3 "secret")]
+
+/-- goroutine 0 copies the list out and overwrites its copy, adds, copies the number
+out and overwrites the copy; goroutine 1 indexes, unmarks and writes into the mark set
+it got, and walks the list -/
+def forkProgs : Nat → List HeapOp
+  | 0 => [.api (.asValueSlice 3 []), .caller (.setElem 1 0 2), .api (.opAdd 0 0), .api (.asBigFloat 0),
+          .caller (.setFloat 2 9)]
+  | 1 => [.api (.index 3 (.i 1)), .api (.unmark 4), .caller (.marksAdd 1 "m"), .api (.walkBegin 3),
+          .api (.walkNext 0), .api (.walkNext 0)]
+  | _ => []
+
+/-- the hypotheses of `goroutines_equiv_sequential` are jointly satisfiable by a
+non-trivial instance: a schedule that interleaves the two goroutines step by step runs
+both to completion, and every step of both is admitted and applies (no `none`) -/
+example :
+    (∀ i, (Interleave.exec (Interleave.start (Conc.Arena.prog forkProgs) (Conc.Arena.cells0 forkState))
+        [0, 1, 1, 0, 1, 0, 0, 1, 1, 0, 1]).todo i = []) ∧
+    (∀ i, (Conc.soloTrace forkState.mem.length forkState (forkProgs i)).all Option.isSome = true) ∧
+    forkState.mem.length = 4 := by
+  refine ⟨fun i => ?_, fun i => ?_, by decide⟩
+  · match i with
+    | 0 => rfl
+    | 1 => rfl
+    | n + 2 => exact Conc.Arena.todo_nil_of_prog_nil forkProgs forkState _ (n + 2) rfl
+  · match i with
+    | 0 => decide
+    | 1 => decide
+    | n + 2 => rfl
+
+open Conc in
+/-- the statement WITHOUT the guard `sharedSafe` — `k` goroutines run the model's
+unguarded `step` over one heap and get back the answers (`outs`) of running alone —
+is false of go-cty, by design: helper sets are mutable and not concurrency-safe -/
+def GoroutinesUnconditionally : Prop :=
+  ∀ (st0 : St) (progs : Nat → List HeapOp) (k : Nat) (sched : List Nat) (i : Nat), i < k →
+    ((List.range k).all fun j => ((Global.execWith step (Global.start st0 progs) sched).todo j).isEmpty) = true →
+    Global.answers ((Global.execWith step (Global.start st0 progs) sched).out i) = Global.answers (stepTrace st0 (progs i))
+
+/-- `a, b := "a", "b"; s := cty.NewValueSet(cty.String)` -/
+def sharedSetState : St :=
+  run {} [.api (.stringVal "a"), .api (.stringVal "b"), .api (.newValueSet (.prim "string"))]
+
+/-- each goroutine: `s.Add(own string); s.Length()` on the SHARED set -/
+def sharedSetProgs : Nat → List HeapOp
+  | 0 => [.api (.vsAdd 0 0 1), .api (.vsLength 0)]
+  | 1 => [.api (.vsAdd 0 1 2), .api (.vsLength 0)]
+  | _ => []
+
+open Conc in
+/-- **Two goroutines that `Add` to one shared `ValueSet`** (documented: "Set mutations
+are not concurrency-safe"; in the model each `Add` is atomic, so this is the mildest
+form of the misuse): under the schedule `0,1,0,1` goroutine 0 reads length 2, alone it
+reads 1 — and `sharedSafe` rejects exactly these two steps.  The race worker shows the
+real thing: `-race` reports the concurrent `Add`s (probe
+`race-detector-reports-concurrent-ValueSet.Add`). -/
+theorem goroutines_shared_set_counterexample :
+    ¬ GoroutinesUnconditionally ∧
+    sharedSafe sharedSetState.mem.length sharedSetState (.api (.vsAdd 0 0 1)) = false ∧
+    sharedSafe sharedSetState.mem.length sharedSetState (.api (.vsLength 0)) = true := by
+  refine ⟨fun h => ?_, by decide, by decide⟩
+  have := h sharedSetState sharedSetProgs 2 [0, 1, 0, 1] 0 (by decide) (by decide)
+  revert this
+  decide
+
+open Conc in
+/-- **One heap, the model's own allocator: no schedule ever writes the shared heap.**
+All goroutines allocate from the one bump allocator of `Heap.alloc` (so addresses do
+depend on the schedule).  Whatever the schedule, complete or not, the heap the
+goroutines started from is a prefix of the current heap, and every value made of
+library-owned storage reports what it reported at the start. -/
+theorem shared_heap_untouched (st0 : St) (progs : Nat → List HeapOp) (sched : List Nat) :
+    st0.mem <+: (Global.exec st0.mem.length (Global.start st0 progs) sched).mem ∧
+    ∀ f w, frozen f st0.mem w = true →
+      fp f (Global.exec st0.mem.length (Global.start st0 progs) sched).mem w = fp f st0.mem w := by
+  obtain ⟨hl, ht⟩ := Global.exec_keeps (n := st0.mem.length) sched (Global.start st0 progs) (Nat.le_refl _)
+  have ht' : (Global.exec st0.mem.length (Global.start st0 progs) sched).mem.take st0.mem.length = st0.mem := by
+    rw [ht]; simp [Global.start]
+  refine ⟨?_, fun f w hw => fp_stable (Global.preserves_of_prefix ht' hl) f w hw⟩
+  have hp := List.take_prefix st0.mem.length (Global.exec st0.mem.length (Global.start st0 progs) sched).mem
+  rw [ht'] at hp
+  exact hp
 
 end C20
 end CtyModel
